@@ -2,6 +2,12 @@
 //! executed in a separate process on a default-sized main thread and judged
 //! by exit status).
 
-pub fn main(_args: &[String]) -> i32 {
-    3
+pub fn main(args: &[String]) -> i32 {
+    match args.first().map(|s| s.as_str()) {
+        Some("nest") if args.len() >= 4 => {
+            let depth: usize = args[2].parse().unwrap_or(0);
+            crate::props::c01::child_nest(&args[1], depth, &args[3])
+        }
+        _ => 3,
+    }
 }
